@@ -2,7 +2,7 @@ ENGINES = [
     {"name": "kvc", "path": "cv/kvc", "serves_properties": ["C08", "C09", "C19", "C10", "C11", "C12"],
      "kind_free_text": "verification-condition generator over the AST of the working tree's source (normalised .pyx / .py), sidecar contracts, z3 + cvc5 discharge, counter-model replay on the real build"},
 ]
-ENGINES.append({"name": "rtc", "path": "cv/rtc", "serves_properties": ["C06", "C07", "C15", "C10", "C11", "C12"],
+ENGINES.append({"name": "rtc", "path": "cv/rtc", "serves_properties": ["C06", "C07", "C15", "C10", "C11", "C12", "C18"],
                 "kind_free_text": "run-time contracts (requires/old/ensures with named clauses) attached to the real functions of a scratch copy of the working tree, driven over exhaustively enumerated small scopes; the bounded stand-in, never counted as proved"})
 NOTES = "Contract-based deductive verification; see DESIGN.md. Exit codes: 0 held, 1 VIOLATION, 2 undecided (solver instability on an unchanged obligation), 3 checker broken."
 NOT_APPLICABLE = {}
@@ -60,5 +60,11 @@ CHECKS = {
         technique="deductive verification at field level: save's proved postcondition implies load's precondition (composition VCs), load's postcondition is the identity; byte-level round trip by run-time contracts (bounded)",
         text="Field level, all inputs: the file save writes is a documented layout that satisfies every conjunct of load's precondition, and load returns the encoded (entries, common, dtype) with keys as tuples of Python ints and each entry exactly its row ids. Byte level, bounded: load(save(E)) == E on the enumerated dicts and every well-formed unsigned index in scope rebuilds to an equal, valid index.",
         note="Abstract arrays carry shapes/regions, not element values: element-wise equality of row ids and coordinates is covered by the bounded byte-level half and by numpy's tofile/ndarray(buffer=) axioms (probed).",
+    ),
+    "C18": dict(
+        engine="rtc", category="exploration", design_ref="DESIGN.md §4, §6 C18",
+        technique="run-time contracts on the real xcube statistics (and xfunc fill/bins) against a pure-NumPy per-cell oracle over an enumerated bounded scope (floating point is outside the deductive reach)",
+        text="stddev, quantile, min, max, covariance and corrcoef of the array cube equal the per-cell textbook statistic (tolerance 1e-9 relative to the data scale), missing cells exactly by the C04 rule (+ fewer than two valid rows for sd, per-entry for matrices), NaN and (values, validity) formats agree; weighted quantile by its three stated laws. Intermediate contracts on every xfunc fill and on bins(). Bounded in input size.",
+        note="Bounded scope (exhaustive fact vectors N<=4 over a 5-value grid incl. NaN, covering design over weight/policy/format factors, 0-2 dims). Cells whose valid weights sum to zero and correlation entries with a constant column are not compared (undefined).",
     ),
 }
